@@ -174,6 +174,10 @@ def value_variants(args, kwitems):
                 else:
                     k[i] = (k[i][0], v)
             yield tuple(a), k
+    # two extra positionals that look like a keyword item (name, value): must not collide with the keyword spelling
+    if len(args) >= 2:
+        from . import shapes as S_
+        yield tuple(args[:-2]) + (S_.FOREIGN, S_.kw_value(S_.FOREIGN)), kwitems
     for v in VARIANTS:
         if args:
             yield (v,) + tuple(args[1:]), kwitems
